@@ -142,6 +142,9 @@ def body(chk):
         raise checklib.Machinery(f"negative control (truncated open reported ok) not rejected: {nv[1]}")
     chk.assumptions += ["scope = the property's quantifier: no pre-existing cache (use_cache=False and a fresh cache dir)",
                         "leader / volume truncations: every record boundary and +-1 (byte grain for images in the thorough tier)"]
+    from harness import sessioncheck
+
+    sessioncheck.standard(chk)
     chk.finish(
         rule="faults = every single missing file + leader/volume truncation at record boundaries +-1 (OpenCall family) + image "
              "truncation at every cut of the ImageIO family, crossed with default / below / at / above-n rpc, on really "
